@@ -211,7 +211,10 @@ elab "ext_step" ih:(ident)? : tactic => withMainContext do
         | with_reducible refine Ext.trans ?_ (setConnError_ext ..)
         | with_reducible refine Ext.trans ?_ (setTask_ext ..)
         | with_reducible refine Ext.trans ?_ (unlink_ext ..)
-        | with_reducible refine Ext.trans ?_ (remove_ext ..)))
+        | with_reducible refine Ext.trans ?_ (remove_ext ..)
+        | with_reducible refine Ext.trans ?_ (unlinkRemove_ext ..)
+        | with_reducible refine Ext.trans ?_ (remove_ext' ..)
+        | with_reducible refine Ext.trans ?_ (insert_ext' _ _ _ _ (by assumption) ?_ ?_)))
     else if n == ``Streams.modStream then
       evalTactic (← `(tactic| first
         | ((with_reducible refine Ext.trans ?_ (modStream_ext _ _ _ ?side)); case side => intro _ _; samer)
